@@ -78,6 +78,19 @@ func (fe *FnExec) doCallWith(fr *frame, st *State, in ssa.Instruction, cc *ssa.C
 		ftypes = append(ftypes, a.Type())
 	}
 	fe.curArgTypes = ftypes
+	// caller-side assertions keyed to this call site (whatever the callee is)
+	if fr.con != nil {
+		if cs := fr.con.Calls[site]; cs != nil {
+			for _, a := range cs.Asserts {
+				ctx := fe.ctxFor(fr, st)
+				for i, v := range full {
+					ctx.binds[fmt.Sprintf("arg%d", i)] = v
+				}
+				g := ctx.evalBool(a.X)
+				fe.oblige(fr, fmt.Sprintf("call[%s].assert:%s", site, a.Label), a.Props, st.pc, g, in.Pos(), a.Src)
+			}
+		}
+	}
 	if key != "" {
 		if con := fe.eng.contracts[key]; con != nil && !con.Inline {
 			fe.used[key] = true
@@ -280,19 +293,6 @@ func (fe *FnExec) applyContract(fr *frame, st *State, in ssa.Instruction, site s
 	for _, rq := range con.Requires {
 		g := mk(st, st).evalBool(rq.X)
 		fe.oblige(fr, fmt.Sprintf("call[%s].pre:%s", site, rq.Label), rq.Props, st.pc, g, pos, rq.Src)
-	}
-	// caller-side extra assertions / assumptions for this site
-	if fr.con != nil {
-		if cs := fr.con.Calls[site]; cs != nil {
-			for _, a := range cs.Asserts {
-				ctx := fe.ctxFor(fr, st)
-				for i, v := range full {
-					ctx.binds[fmt.Sprintf("arg%d", i)] = v
-				}
-				g := ctx.evalBool(a.X)
-				fe.oblige(fr, fmt.Sprintf("call[%s].assert:%s", site, a.Label), a.Props, st.pc, g, pos, a.Src)
-			}
-		}
 	}
 	pre := st.clone()
 	for _, m := range con.Modifies {
